@@ -131,12 +131,85 @@ def one_case(args):
     return out
 
 
+def backpressure_case(args):
+    """scale: 30 000 packets (more than the reader's queue of 100 batches x 100 packets holds) while the consumer of the batches is stalled for
+    several hundred ms at a time (H1 stall of the analysis thread / the writer): every RDH is still visited exactly once, in order"""
+    exe, wd, seed, case, tier = args
+    rng = rng_for(seed, 900000 + case)
+    out = dict(case=case, viol=None, events=0, key=None, sample=None)
+    n = 30000
+    pkts = frame.generate(rng, n, payload="none", sane_headers=True)
+    sysid = pkts[0].f["system_id"]
+    for p in pkts:
+        p.f["system_id"] = sysid
+    data = frame.serialize(pkts)
+    mode = ["view_rdh", "writer", "check_all"][case % 3]
+    path = os.path.join(wd, "bp%d.raw" % case)
+    write_file(path, data)
+    use_stdin = case % 2 == 1
+    lk = pkts[0].f["link_id"]
+    for p in pkts:
+        p.f["link_id"] = lk if mode == "writer" else p.f["link_id"]
+    if mode == "writer":
+        data = frame.serialize(pkts)
+        write_file(path, data)
+    argv = ([] if use_stdin else [path]) + {"view_rdh": ["view", "rdh"], "writer": ["-f", str(lk)], "check_all": ["check", "all", "-m"]}[mode]
+    site = {"view_rdh": 2, "writer": 8, "check_all": rng.choice([2, 9])}[mode]
+    sched = "%d:0:%d:%d:%d" % (seed * 77 + case, site, rng.choice([300, 450]), rng.choice([3, 5]))
+    r = obs.run(exe, argv, stdin_path=path if use_stdin else None, workdir=wd, stats="json", out_name=(mode == "writer"), tag="bp%d" % case,
+                env={"FASTPASTA_VERIF_SCHED": sched}, timeout=300)
+    ref_errors = None
+    if mode == "check_all":
+        r0 = obs.run(exe, argv, stdin_path=path if use_stdin else None, workdir=wd, stats="json", tag="bq%d" % case, timeout=300)
+        ref_errors = r0.total_errors() if r0.stats else None
+    os.unlink(path)
+    desc = "backpressure: %d packets, %s, %s, consumer stalled by schedule %s" % (n, mode, "stdin" if use_stdin else "file", sched)
+    out["sample"] = desc
+    out["key"] = ("backpressure", mode, use_stdin)
+
+    def bad(what):
+        d = save_replay("C03", "bp%d" % case, {"stderr.txt": r.stderr[-20000:]}, dict(seed=seed, case=case, argv=argv, sched=sched, what=what, desc=desc,
+                        note="input regenerated from (seed, case): lib/props/c03.py backpressure_case"))
+        out["viol"] = ("scan:backpressure:%s" % what.split(":")[0], "%s: %s" % (desc, what), d)
+        return out
+    if r.abnormal():
+        return bad("abnormal end: %s" % r.abnormal())
+    if mode == "view_rdh":
+        rows = obs.parse_rdh_view(r.stdout)
+        out["events"] = len(rows)
+        if len(rows) != n:
+            return bad("row count: %d rows shown, the chain has %d packets" % (len(rows), n))
+        for i, ((off, fields), p) in enumerate(zip(rows, pkts)):
+            if off != p.offset:
+                return bad("offset: row %d shows offset 0x%X, the packet is at 0x%X" % (i, off, p.offset))
+    elif mode == "writer":
+        out["events"] = n
+        if (r.out_file or b"") != data:
+            return bad("output: %d bytes written, expected %d (every packet matches the filter)" % (len(r.out_file or b""), len(data)))
+    else:
+        out["events"] = n
+        if r.stats is None or r.stats["rdh_stats"]["rdhs_seen"] != n:
+            return bad("visited: rdhs_seen=%s, the chain has %d" % (r.stats and r.stats["rdh_stats"]["rdhs_seen"], n))
+        offs = set(p.offset for p in pkts)
+        errs = r.reported()
+        per_pkt = {}
+        for m in errs:
+            if m.offset not in offs:
+                return bad("error offset: message at %s is not the offset of a packet" % m.offset)
+            per_pkt[m.offset] = per_pkt.get(m.offset, 0) + 1
+        # a packet that was never handed to a validator has no messages: the unstalled run of the same command is the reference
+        if ref_errors is not None and r.total_errors() != ref_errors:
+            return bad("validated: %d errors collected under the stalled schedule, %d without it" % (r.total_errors(), ref_errors))
+    return out
+
+
 def run(res):
     exe = build.fastpasta("rel")
     wd = scratch("c03")
     quick = res.tier == "quick"
     n = 320 if quick else 6000
     outs = pmap(one_case, [(exe, wd, res.seed, c, res.tier) for c in range(n)])
+    outs += pmap(backpressure_case, [(exe, wd, res.seed, c, res.tier) for c in range(3 if quick else 24)], workers=3)
     for o in outs:
         res.evaluations += 1
         res.count("rows_or_events_compared", o["events"])
@@ -158,6 +231,7 @@ def run(res):
             res.extra["inproc_distinct_configurations"] = j["distinct_configurations"]
     res.rule = ("G-frame streams (arbitrary header values, payload 0..10000 bytes, counts incl. 99/100/101/199/200/201/1000) x "
                 "{view rdh, check all, data view, filter writer} x {file, stdin} x {no filter, link, FEE, stave, absent value}; "
+                "plus backpressure cases (30 000 packets, the consumer of the reader's batches stalled 300-450 ms several times by an H1 schedule); "
                 "non-trivial = distinct (mode, input kind, filter kind, packet count class, payload kind) with >= 1 compared row")
     res.min_nontrivial = 40 if quick else 150
     res.assumptions = ["well-framed input: offset_to_next == memory_size in 64..10064", "first RDH passes the start-up gate (recognised input)",
